@@ -22,6 +22,17 @@ type Witness struct {
 // tryReplay turns a model into an execution of the real code when the function's contract names a replay template.
 // It returns the transcript and whether the real code reproduced the violation.
 func tryReplay(prop string, o *Obl, r *FuncReport, repo, verif string) (string, bool) {
+	for sub, tmpl := range r.ReplayFor {
+		if strings.Contains(o.Label, sub) {
+			rr := *r
+			rr.ReplayFor = nil
+			rr.Replay = tmpl
+			if i := strings.Index(tmpl, "@"); i >= 0 {
+				rr.PkgDir, rr.Replay = tmpl[i+1:], tmpl[:i]
+			}
+			return tryReplay(prop, o, &rr, repo, verif)
+		}
+	}
 	if r.Replay == "" || o.File == "" {
 		return "", false
 	}
